@@ -409,7 +409,7 @@ class C14(OptEngineBase):
     ]
     PROBES = ["tag_" + t for t in TAGS] + [
         "custom_tag", "near_miss_tag", "crlf", "no_final_newline", "split_inside_number", "split_crlf_pair", "vertex_after_edge",
-        "exotic_float_syntax", "logger_suppressed", "eio_fired", "xfer_1", "warnings_counted", "nonunit_measurement_quat", "two_files_interleaved", "control_char_junk", "malformed_file_load_caught",
+        "exotic_float_syntax", "logger_suppressed", "eio_fired", "xfer_1", "warnings_counted", "nonunit_measurement_quat", "two_files_interleaved", "control_char_junk", "malformed_file_load_caught", "loaded_graph_edited_in_place",
     ]
 
     def generate(self, rng, tier, index):
@@ -446,6 +446,7 @@ class C14(OptEngineBase):
                 "bufsize": rng.choice([1, 2, 3, 16, 61, 512, 8192]),
                 "logger": rng.choice(["default", "default", "default", "error_level", "debug_level", "raising_handler", "disabled"]),
                 "file": rng.randrange(2) if two else 0,
+                "scribble": rng.random() < 0.25,
             })
         if not any(o["entry"] == "Graph.from_g2o" for o in ops):
             ops[0]["entry"] = "Graph.from_g2o"
@@ -679,6 +680,20 @@ class C14(OptEngineBase):
                             V("entry-points-differ", "this load differs from the first Graph.from_g2o-equivalent load of the same bytes")
                             break
                 compared += 1
+                if op.get("scribble"):
+                    # the loaded graph is the caller's: edit every array it holds in place (later loads must not care)
+                    res.probe("loaded_graph_edited_in_place")
+                    for v in g._vertices:
+                        v.pose[0] = float(v.pose[0]) + 0.375
+                    for e in g._edges:
+                        if getattr(e, "offset", None) is not None:
+                            e.offset[0] = float(e.offset[0]) + 0.3
+                        if isinstance(e.estimate, np.ndarray) and e.estimate.ndim:
+                            e.estimate[0] = float(e.estimate[0]) - 0.25
+                        if isinstance(e.information, np.ndarray) and e.information.flags.writeable:
+                            e.information *= 2.0
+                    for par in (getattr(g, "_g2o_params", None) or {}).values():
+                        par.value[1] = float(par.value[1]) + 0.5
             if dry:
                 res.counts = w.op_counts()
                 res.counts["__actions__"] = [list(a) for a in w.disk.actions]
